@@ -1518,6 +1518,27 @@ func c18e(c *Ctx) {
 						t = dl.term + " (one of the values of " + t + ")"
 					}
 				}
+				// ... also when the token is one the function was handed: what its callers hand in
+				// (a block parser is given the opening brace it reports an unclosed block at)
+				if par, isPar := a.(*ssa.Parameter); isPar && !bad {
+					idx := paramIndex(fn, par)
+					for _, cs := range c.W.callsTo(fn) {
+						if isTestFunc(c.W, cs.Parent()) || idx < 0 || idx >= len(cs.Common().Args) {
+							continue
+						}
+						ct := c.term(cs.Parent(), cs.Common().Args[idx])
+						if ct == "zero" || strings.HasPrefix(ct, "with(zero;") || strings.HasSuffix(ct, "=zero") {
+							bad = true
+							t = ct + " (handed in by " + cs.Parent().Name() + ")"
+						}
+						for _, dl := range c.deepLeaves(cs.Parent(), cs.Common().Args[idx], 1) {
+							if dl.term == "zero" || strings.HasPrefix(dl.term, "with(zero;") {
+								bad = true
+								t = dl.term + " (handed in by " + cs.Parent().Name() + ")"
+							}
+						}
+					}
+				}
 				c.Check(!bad, fmt.Sprintf("%s/error-token#%d.%d", c.W.FuncKey(fn), m, i), c.W.Pos(call.Pos()), "error located at a real token", "an error is located at a synthesised / zero token ("+pretty(t)+"): it would point at line 0")
 			}
 		}
